@@ -15,7 +15,7 @@ CONSTANTS MaxRecs,
 
 Orders == {"fwd", "rev"}
 SepStyles == {"plain", "blanks", "extra"}
-MultiStyles == {"one", "split0", "split1"}
+MultiStyles == {"one", "split0", "split1", "lead"}
 Comments == BOOLEAN
 
 Shapes == {sh \in [s : SKeySets, ni : IssueCounts, c : CounterKinds, n : NumKinds] :
@@ -47,10 +47,16 @@ CounterGroup(r, sh, multi, cm) ==
         gap == IF cm THEN <<Blank>> ELSE <<>> IN
     IF sh.c = "none" THEN <<>>
     ELSE IF sh.c = "plain" \/ sh.c = "braced1" \/ multi = "one" THEN <<Line("field", "counter", pre, bs)>>
-    ELSE IF multi = "split0"
-         THEN <<Line("copen", "counter", pre, <<>>)>> \o gap \o <<Line("cmid", "", "", <<bs[1]>>), Line("cmid", "", "", <<bs[2]>>)>>
-              \o gap \o <<Line("cclose", "", "", <<bs[3]>>)>>
-    ELSE <<Line("copen", "counter", pre, <<bs[1]>>), Line("cmid", "", "", <<bs[2]>>)>> \o gap \o <<Line("cclose", "", "", <<bs[3]>>)>>
+    ELSE IF multi = "split0"      \* the style of the repository's own config.txt: "{" / one bucket per line / "}"
+         THEN <<Line("copen", "counter", pre, <<>>)>> \o gap
+              \o <<LineC("cmid", "", "", <<bs[1]>>, FALSE, TRUE), LineC("cmid", "", "", <<bs[2]>>, FALSE, TRUE), LineC("cmid", "", "", <<bs[3]>>, FALSE, FALSE)>>
+              \o gap \o <<Line("cclose", "", "", <<>>)>>
+    ELSE IF multi = "split1"      \* commas at the line ends
+         THEN <<LineC("copen", "counter", pre, <<bs[1]>>, FALSE, TRUE), LineC("cmid", "", "", <<bs[2]>>, FALSE, TRUE)>> \o gap
+              \o <<Line("cclose", "", "", <<bs[3]>>)>>
+    ELSE                          \* commas at the line starts
+         <<LineC("copen", "counter", pre, <<bs[1]>>, FALSE, FALSE), LineC("cmid", "", "", <<bs[2]>>, TRUE, FALSE)>> \o gap
+         \o <<LineC("cclose", "", "", <<bs[3]>>, TRUE, FALSE)>>
 
 SKeyOrder == <<"title", "description", "type", "program", "module", "version">>
 RenderRec(r, sh, st) ==
